@@ -4,6 +4,18 @@ from dateutil.relativedelta import relativedelta
 from dateutil.rrule import rrule, MONTHLY
 from ..rule import rule, predicate, dimension, _regex_to_join
 from ..types import Time, Duration, Interval, pod_hours, RegexMatch, DurationUnit
+from calendar import monthrange
+
+
+def _is_valid_date(year: Optional[int], month: int, day: int) -> bool:
+    """Check that *day* exists in *month* (of *year*, if given; else in a leap year)."""
+    if not 1 <= month <= 12 or day < 1:
+        return False
+    if year is None:
+        return day <= monthrange(2000, month)[1]
+    if not 1 <= year <= 9999:
+        return False
+    return day <= monthrange(year, month)[1]
 
 
 @rule(
@@ -258,17 +270,23 @@ def ruleEOY(ts: datetime, _: RegexMatch) -> Time:
 
 
 @rule(predicate("isDOM"), predicate("isMonth"))
-def ruleDOMMonth(ts: datetime, dom: Time, m: Time) -> Time:
+def ruleDOMMonth(ts: datetime, dom: Time, m: Time) -> Optional[Time]:
+    if not _is_valid_date(None, m.month, dom.day):
+        return None
     return Time(day=dom.day, month=m.month)
 
 
 @rule(predicate("isDOM"), r"of", predicate("isMonth"))
-def ruleDOMMonth2(ts: datetime, dom: Time, _: RegexMatch, m: Time) -> Time:
+def ruleDOMMonth2(ts: datetime, dom: Time, _: RegexMatch, m: Time) -> Optional[Time]:
+    if not _is_valid_date(None, m.month, dom.day):
+        return None
     return Time(day=dom.day, month=m.month)
 
 
 @rule(predicate("isMonth"), predicate("isDOM"))
-def ruleMonthDOM(ts: datetime, m: Time, dom: Time) -> Time:
+def ruleMonthDOM(ts: datetime, m: Time, dom: Time) -> Optional[Time]:
+    if not _is_valid_date(None, m.month, dom.day):
+        return None
     return Time(month=m.month, day=dom.day)
 
 
@@ -297,7 +315,9 @@ def ruleDOWNextWeek(ts: datetime, dow: Time, _: RegexMatch) -> Time:
 
 
 @rule(predicate("isDOY"), predicate("isYear"))
-def ruleDOYYear(ts: datetime, doy: Time, y: Time) -> Time:
+def ruleDOYYear(ts: datetime, doy: Time, y: Time) -> Optional[Time]:
+    if not _is_valid_date(y.year, doy.month, doy.day):
+        return None
     return Time(year=y.year, month=doy.month, day=doy.day)
 
 
@@ -371,13 +391,15 @@ def ruleLatentPOD(ts: datetime, pod: Time) -> Time:
 )
 # do not allow dd.ddam, dd.ddpm, but allow dd.dd am - e.g. in the German
 # "13.06 am Nachmittag"
-def ruleDDMM(ts: datetime, m: RegexMatch) -> Time:
+def ruleDDMM(ts: datetime, m: RegexMatch) -> Optional[Time]:
     if m.match.group("month"):
         month = int(m.match.group("month"))
     else:
         for i, (name, _) in enumerate(_months):
             if m.match.group(name):
                 month = i + 1
+    if not _is_valid_date(None, month, int(m.match.group("day"))):
+        return None
     return Time(month=month, day=int(m.match.group("day")))
 
 
@@ -386,13 +408,15 @@ def ruleDDMM(ts: datetime, m: RegexMatch) -> Time:
     r"(?P<day>(?&_day))"
     r"(?!\d|am|\s*pm)".format(_rule_months)
 )
-def ruleMMDD(ts: datetime, m: RegexMatch) -> Time:
+def ruleMMDD(ts: datetime, m: RegexMatch) -> Optional[Time]:
     if m.match.group("month"):
         month = int(m.match.group("month"))
     else:
         for i, (name, _) in enumerate(_months):
             if m.match.group(name):
                 month = i + 1
+    if not _is_valid_date(None, month, int(m.match.group("day"))):
+        return None
     return Time(month=month, day=int(m.match.group("day")))
 
 
@@ -401,7 +425,7 @@ def ruleMMDD(ts: datetime, m: RegexMatch) -> Time:
     r"((?P<month>(?&_month))|(?P<named_month>({})))[-/\.]"
     r"(?P<year>(?&_year))(?!\d)".format(_rule_months)
 )
-def ruleDDMMYYYY(ts: datetime, m: RegexMatch) -> Time:
+def ruleDDMMYYYY(ts: datetime, m: RegexMatch) -> Optional[Time]:
     y = int(m.match.group("year"))
     if y < 100:
         y += 2000
@@ -411,6 +435,8 @@ def ruleDDMMYYYY(ts: datetime, m: RegexMatch) -> Time:
         for i, (name, _) in enumerate(_months):
             if m.match.group(name):
                 month = i + 1
+    if not _is_valid_date(y, month, int(m.match.group("day"))):
+        return None
     return Time(year=y, month=month, day=int(m.match.group("day")))
 
 
@@ -618,6 +644,8 @@ def ruleDOMDate(ts: datetime, d1: Time, _: RegexMatch, d2: Time) -> Optional[Int
 def ruleDateDOM(ts: datetime, d1: Time, _: RegexMatch, d2: Time) -> Optional[Interval]:
     if d1.day >= d2.day:
         return None
+    if not _is_valid_date(d1.year, d1.month, d2.day):
+        return None
     return Interval(t_from=d1, t_to=Time(year=d1.year, month=d1.month, day=d2.day))
 
 
@@ -626,6 +654,8 @@ def ruleDOYDate(ts: datetime, d1: Time, _: RegexMatch, d2: Time) -> Optional[Int
     if d1.month > d2.month:
         return None
     elif d1.month == d2.month and d1.day >= d2.day:
+        return None
+    if not _is_valid_date(d2.year, d1.month, d1.day):
         return None
     return Interval(t_from=Time(year=d2.year, month=d1.month, day=d1.day), t_to=d2)
 
